@@ -135,7 +135,12 @@ impl MainState {
                 old(conn_state).user_state.source@, channels@, keys_opt, channels@.len() as int),
             r is Ok ==> join_post(*old(state), *final(state), self.config.max_joins, my_nick(*old(conn_state)), // @prop C07,C16,C04
                 old(conn_state).user_state.source@, channels@, keys_opt, channels@.len() as int),
-            state_wf(*final(state)), // @prop C04
+            sym(*final(state)), // @prop C04
+            chans_wf(*final(state)), // @prop C04,C08
+            no_empty_chan(*final(state)), // @prop C16
+            wallops_wf(*final(state)), // @prop C11,C06
+            counters_wf(*final(state)), // @prop C19
+            senders_distinct(*final(state)), // @prop C02,C01
             conn_ok(*final(conn_state), *final(state)), // @prop C07
 //@open
         broadcast use group_hash_axioms, bridge, string_eq, lemma_cover_is_exact;
@@ -153,7 +158,7 @@ impl MainState {
                     it1.seq().len() == chans.len(),
                     forall|k: int| 0 <= k < it1.seq().len() ==> it1.seq()[k] == &chans[k],
                     i == it1.index@, joined_created@.len() == i,
-                    *user == u0, state.channels == o.channels,
+                    *user == u0, state.channels == o.channels, // @prop C07
                     join_count == jcount(o, mj, me, src, chans, keys_opt, i as int),
                     forall|j: int| 0 <= j < i ==> (#[trigger] joined_created@[j]) == (jdec(o, mj, me, src, chans, keys_opt, j), !o.channels@.contains_key(sk(chans[j]))),
 //@after ~for chname_str in channels\.iter\(\)
